@@ -243,6 +243,12 @@ def oracle(case, impl):
         STATS["judged:no(no ok run)"] += 1
         return None
     lv = chain_levels(cmd, chain)
+    if lv is not None:
+        # a declared name can also be reached as an *external* subcommand (its matches hold the
+        # values under the empty id)
+        for r in (ra, rb, rc):
+            if r["kind"] == "ok" and any(e["id"] == b"" for ents, _ in levels(r["m"]) for e in ents):
+                lv = None
     if lv is None:
         STATS["judged:no(external subcommand)"] += 1
         return None
@@ -471,7 +477,7 @@ def tail_pool(cmd, level):
     return pool
 
 
-def gen_c05_cases(rng, n, prof_kw, per_cmd=6, p_pending=0.15, p_mutate=0.15):
+def gen_c05_cases(rng, n, prof_kw, per_cmd=6, p_pending=0.12, p_mutate=0.05, safe_p=0.9):
     prof = gen_cmd.Profile(**prof_kw)
     out = []
     guard = 0
@@ -481,7 +487,7 @@ def gen_c05_cases(rng, n, prof_kw, per_cmd=6, p_pending=0.15, p_mutate=0.15):
         force_trailing_multi(rng, c)
         nb = "no_binary_name" in c["settings"]
         for _ in range(per_cmd):
-            argv = gen_cmd.gen_argv(rng, c, p_mutate=p_mutate, safe_p=0.75)
+            argv = gen_cmd.gen_argv(rng, c, p_mutate=p_mutate, safe_p=safe_p)
             natural = []
             if b"--" in argv[(0 if nb else 1):]:
                 i = argv.index(b"--", 0 if nb else 1)
@@ -598,7 +604,8 @@ def describe(cases):
 
 
 MAIN = dict(globals=0, last=0.25, tva=0.15, hyphen=0.12, terminators=0.08, delims=0.35, settings=0.18, infer=0.3,
-            flag_subs=0.35, external=0.08, ignore_errors=0.03, invalid=0.0, low_index=0.04, max_pos=2)
+            flag_subs=0.35, external=0.08, ignore_errors=0.0, invalid=0.0, low_index=0.04, max_pos=2, relations=0.05,
+            groups=0.1, require_equals=0.05)
 ADVERSARIAL = dict(globals=0, last=0.4, tva=0.3, hyphen=0.35, terminators=0.3, delims=0.6, settings=0.3, infer=0.5,
                    flag_subs=0.6, external=0.25, ignore_errors=0.05, invalid=0.02, low_index=0.15, relations=0.4,
                    groups=0.5, require_equals=0.25)
@@ -609,7 +616,7 @@ def streams(tier, rng):
     big = tier == "thorough"
     STATS.clear()
     main = gen_c05_cases(rng, 60000 if big else 6000, MAIN)
-    adv = gen_c05_cases(rng, 40000 if big else 4000, ADVERSARIAL, p_pending=0.3, p_mutate=0.4)
+    adv = gen_c05_cases(rng, 40000 if big else 4000, ADVERSARIAL, p_pending=0.3, p_mutate=0.4, safe_p=0.6)
     sweep = sweep_cases(rng, 60 if big else 8, MAIN)
     glob = gen_c05_cases(rng, 15000 if big else 1500, GLOBALS)
 
